@@ -49,6 +49,21 @@ func c20Second(pw string) string { return strings.Replace(pw, c20Marker, c20Mark
 // configured strings; a stray occurrence elsewhere would show as a violation on the unchanged tree).
 var c20Short = []string{"~", "|", "~|", "^~|", "~^|~"}
 
+// c20Common: passwords that are substrings of the text around them ("PASS" itself, parts of it, a letter that
+// occurs in every record). Whether some other record "contains" such a password cannot be judged; what can is the
+// record of the PASS line itself: the k-th "-> " record belongs to the k-th line written, and the one that
+// belongs to the PASS line must read "-> PASS <something without the password>".
+var c20Common = []string{"PASS", "SS", "AS", "S", "P", "PASS PASS"}
+
+func c20IsCommon(pw string) bool {
+	for _, s := range c20Common {
+		if s == pw {
+			return true
+		}
+	}
+	return false
+}
+
 func c20IsShort(pw string) bool {
 	for _, s := range c20Short {
 		if s == pw {
@@ -171,9 +186,13 @@ func c20Needles(pw string) []string {
 }
 
 // c20Judge applies the oracle to the captured records.
-func c20Judge(pw string, logs []vx.LogRec) ([]explore.Finding, c20Stats) {
+func c20Judge(pw string, o *vx.Outcome) ([]explore.Finding, c20Stats) {
+	logs := o.Logs
 	st := c20Stats{Levels: map[string]int{}}
 	var fs []explore.Finding
+	if c20IsCommon(pw) {
+		return c20JudgeCommon(pw, o)
+	}
 	needles := append(c20Needles(pw), c20Needles(c20Second(pw))...)
 	has := func(text string) bool {
 		for _, n := range needles {
@@ -235,13 +254,47 @@ func c20Judge(pw string, logs []vx.LogRec) ([]explore.Finding, c20Stats) {
 	return fs, st
 }
 
+// c20JudgeCommon: the positional oracle for passwords of c20Common.
+func c20JudgeCommon(pw string, o *vx.Outcome) ([]explore.Finding, c20Stats) {
+	st := c20Stats{Levels: map[string]int{}}
+	var wire []string
+	for _, vc := range o.Conns {
+		wire = append(wire, vc.Lines()...)
+	}
+	var fs []explore.Finding
+	k := 0
+	for _, rec := range o.Logs {
+		st.Records++
+		st.Levels[rec.Level]++
+		if rec.Format != "-> %s" {
+			continue
+		}
+		full := fmt.Sprintf(rec.Format, rec.Args...)
+		if k < len(wire) && strings.HasPrefix(wire[k], "PASS ") {
+			st.PassShown++
+			if !strings.HasPrefix(full, "-> PASS ") || strings.Contains(full[len("-> PASS "):], pw) {
+				if len(fs) == 0 {
+					fs = append(fs, explore.Finding{Oracle: "pass-line-not-masked", Msg: fmt.Sprintf("the record of the line %s reads %s: not \"PASS\" followed by something that hides the password", Q(wire[k]), Q(full))})
+				}
+			} else {
+				st.Masked++
+			}
+		}
+		k++
+	}
+	return fs, st
+}
+
 func c20Scenario(pwIdx int, pw string, m c20Mode, outcome string) *explore.Scenario {
 	for _, s := range c20Configured(m) {
+		if c20IsCommon(pw) {
+			break // judged by position, not by containment
+		}
 		if strings.Contains(s, pw) || strings.Contains(s, c20Marker) || strings.Contains(s, c20Marker2) {
 			panic(fmt.Sprintf("C20 harness precondition violated: password/marker %s occurs in configured string %s", Q(pw), Q(s)))
 		}
 	}
-	if (!strings.Contains(pw, c20Marker) && !c20IsShort(pw)) || pw == "" {
+	if (!strings.Contains(pw, c20Marker) && !c20IsShort(pw) && !c20IsCommon(pw)) || pw == "" {
 		panic("C20 harness precondition violated: password without the marker")
 	}
 	sc := &explore.Scenario{
@@ -415,12 +468,12 @@ func c20Scenario(pwIdx int, pw string, m c20Mode, outcome string) *explore.Scena
 		vx.Observe("ev", fmt.Sprintf("end connected=%v", c.Connected()))
 	}
 	sc.Check = func(o *vx.Outcome) []explore.Finding {
-		fs, _ := c20Judge(pw, o.Logs)
+		fs, _ := c20Judge(pw, o)
 		return fs
 	}
 	sc.Observation = func(o *vx.Outcome) string {
 		// what was logged, without the arguments; plus whether the masked PASS record is there
-		_, st := c20Judge(pw, o.Logs)
+		_, st := c20Judge(pw, o)
 		var sb strings.Builder
 		for _, r := range o.Logs {
 			sb.WriteString(r.Level + ":" + r.Format + ";")
@@ -449,6 +502,7 @@ func c20Passwords(tier string) []string {
 		pws = append(pws, c20Marker+strings.Repeat("z", n))
 	}
 	pws = append(pws, c20Short...)
+	pws = append(pws, c20Common...)
 	if tier == "thorough" {
 		// the byte before / after the marker, and pairs of the bytes that mean something to IRC, fmt or the mask
 		special := []string{" ", ":", "%", "\\", "*", "P", "\x01", "\t", "\"", "'", "\x7f", "\xff", "é"}
@@ -483,7 +537,7 @@ func c20EnumJob(name string, idx []int, pws []string) Job {
 					o := explore.RunDefault(sc, 1)
 					kinds[o.Kind]++
 					passHit += count(o.Log("ev"), "write error hit the PASS line")
-					fs, st := c20Judge(pw, o.Logs)
+					fs, st := c20Judge(pw, o)
 					total.Records += st.Records
 					total.PassShown += st.PassShown
 					total.Masked += st.Masked
@@ -542,7 +596,7 @@ func c20EnumJob(name string, idx []int, pws []string) Job {
 func init() {
 	Register(&Prop{
 		ID:   "C20",
-		Rule: "passwords = marker \"Zq7Pw\" + variant and \"x\" + marker + variant for variant ∈ {p, PASS, ' lead', 'a b', ':c', '%s%d%!', '\\', '\\x01x', 600×z} (18 designed), plus marker + every printable ASCII byte (95) and a length ladder 1..2000 (12), plus five passwords of 1 to 4 bytes, shorter than the marker, made of bytes that occur nowhere else in the sessions (thorough: + pairs of IRC/fmt/mask-significant bytes around the marker and fmt/IRC look-alikes); sessions = {plain, negotiation, tracking, both, plain without proxy, both without proxy, plain with flood protection, both with flood protection} × outcome {normal welcome + 11 lines + EOF, EOF at once, write error on write 1..4, dial error, empty cfg.Server, TLS handshake answered in plain text / by EOF, a second password (other marker) sent with Conn.Pass after registration, ConnectTo(other host, second password) while connected followed by Conn.Pass(first), Config.Pass overwritten (second password / empty) as soon as Connect returns, a second connect of the same client after a full first session, a server that does not read for three minutes after accepting, the configured password sent once more by the application (Conn.Pass as soon as Connect returns / from a REGISTER handler of its own / twice in a row after the welcome)}; enumeration jobs run every (password, session) once under the default schedule; exploration jobs run the failing-connection sessions of the 18 designed passwords under every schedule within the deviation budgets; the capturing logger records all four levels; distinct = distinct (password, session, sequence of (level, format) records, number of masked PASS records) resp. distinct canonical observation per explored scenario",
+		Rule: "passwords = marker \"Zq7Pw\" + variant and \"x\" + marker + variant for variant ∈ {p, PASS, ' lead', 'a b', ':c', '%s%d%!', '\\', '\\x01x', 600×z} (18 designed), plus marker + every printable ASCII byte (95) and a length ladder 1..2000 (12), plus five passwords of 1 to 4 bytes, shorter than the marker, made of bytes that occur nowhere else in the sessions, plus six passwords that are part of the text around them (PASS, SS, AS, S, P, PASS PASS), judged by position: the record that belongs to the PASS line must read '-> PASS ' + something without the password (thorough: + pairs of IRC/fmt/mask-significant bytes around the marker and fmt/IRC look-alikes); sessions = {plain, negotiation, tracking, both, plain without proxy, both without proxy, plain with flood protection, both with flood protection} × outcome {normal welcome + 11 lines + EOF, EOF at once, write error on write 1..4, dial error, empty cfg.Server, TLS handshake answered in plain text / by EOF, a second password (other marker) sent with Conn.Pass after registration, ConnectTo(other host, second password) while connected followed by Conn.Pass(first), Config.Pass overwritten (second password / empty) as soon as Connect returns, a second connect of the same client after a full first session, a server that does not read for three minutes after accepting, the configured password sent once more by the application (Conn.Pass as soon as Connect returns / from a REGISTER handler of its own / twice in a row after the welcome)}; enumeration jobs run every (password, session) once under the default schedule; exploration jobs run the failing-connection sessions of the 18 designed passwords under every schedule within the deviation budgets; the capturing logger records all four levels; distinct = distinct (password, session, sequence of (level, format) records, number of masked PASS records) resp. distinct canonical observation per explored scenario",
 		Assumptions: []string{
 			"the server never sends the password (recv logs every received line); asserted by the harness precondition",
 			"connections go through the in-memory network either via the registered proxy type or (modes +direct) via the Dialer shim that replaces net.Dialer in the instrumented copy; the TLS branch is executed with a handshake that fails (plain-text answer, EOF), never with one that succeeds",
